@@ -213,3 +213,23 @@ Proof.
   destruct (first_match r s) as [[j0 k0]|]; split; try reflexivity; try discriminate.
   intros H; inversion H; lia.
 Qed.
+
+(* the test `if node.isEnd { return pos }` after the loop of starts() never succeeds: the loop
+   is left only at a node that is not the end of a word (the root never is) *)
+Fixpoint starts_loop_nocheck (n : trie) (rest : list Z) (pos : Z) : Z :=
+  match rest with
+  | [] => -1
+  | c :: rest' =>
+      match contains_child n c with
+      | None => -1
+      | Some m => if is_end m then pos else starts_loop_nocheck m rest' (pos + 1)
+      end
+  end.
+
+Lemma after_loop_test_dead rest : forall n pos, is_end n = false ->
+  starts_loop n rest pos = starts_loop_nocheck n rest pos.
+Proof.
+  induction rest as [|c rest IH]; intros n pos He; cbn; [rewrite He; reflexivity|].
+  destruct (contains_child n c) as [m|]; [|reflexivity].
+  destruct (is_end m) eqn:Em; [reflexivity | apply IH, Em].
+Qed.
